@@ -29,6 +29,14 @@ type dcons struct {
 type dsys struct {
 	cons []dcons
 	neq  []dcons // x - y != c
+	// for the linear prover (linsolve.go)
+	eqs    []linexp  // expressions equal to 0
+	copies []copyRel // n = copy(dst, src): n is len(dst) or len(src)
+}
+
+type copyRel struct {
+	n, dst, src    string
+	dstOff, srcOff int64
 }
 
 // tighten uses the disequalities: x - y <= c and x - y != c give x - y <= c-1 (and likewise from
@@ -115,7 +123,11 @@ func linear(t *Term) (string, int64) {
 			}
 		}
 	}
-	return t.Key(), 0
+	k := t.Key()
+	if t.Op == "Bin" && len(t.Args) == 2 && (t.S == "+" || t.S == "-" || t.S == "*") {
+		symDefs.Store(k, t) // the linear prover takes it apart
+	}
+	return k, 0
 }
 
 // addAtom translates one guard atom into constraints.
@@ -212,13 +224,13 @@ func isSliceType(v ssa.Value) bool {
 
 // system builds the constraint system in force at an instruction.
 func (tb *TB) system(in ssa.Instruction) *dsys {
-	return tb.buildSystem(tb.FactsAt(in.Block()), in.Block(), true)
+	return tb.buildSystem(tb.FactsAt(in.Block()), in.Block(), in, true)
 }
 
 // buildSystem: the constraints implied by the given facts plus the axioms about the values of
 // the function. With withPhi, a merge of integers (or of slices, for their lengths) is bounded
 // by whatever bounds each of its incoming values under the facts of its own edge.
-func (tb *TB) buildSystem(facts []Atom, at *ssa.BasicBlock, withPhi bool) *dsys {
+func (tb *TB) buildSystem(facts []Atom, at *ssa.BasicBlock, before ssa.Instruction, withPhi bool) *dsys {
 	s := &dsys{}
 	fn := at.Parent()
 	var phis []*ssa.Phi
@@ -241,8 +253,47 @@ func (tb *TB) buildSystem(facts []Atom, at *ssa.BasicBlock, withPhi bool) *dsys 
 			s.le("0", sym, 0) // len >= 0
 		}
 	}
+	// what an instruction guarantees about its result holds once it has been executed: only
+	// instructions that come before the point of interest on every path contribute (an
+	// axiom about the result of the very operation whose precondition is being proved, or of
+	// a later one, would assume what is to be shown)
+	domCache := map[*ssa.BasicBlock]bool{}
+	dominates := func(b *ssa.BasicBlock) bool {
+		if b == at || b.Dominates(at) {
+			return true
+		}
+		v, ok := domCache[b]
+		if !ok {
+			v = tb.p.feasDominates(b, at) // over the edges that can be taken
+			domCache[b] = v
+		}
+		return v
+	}
+	executed := func(x ssa.Instruction) bool {
+		if _, isPhi := x.(*ssa.Phi); isPhi {
+			return dominates(x.Block())
+		}
+		if x.Block() == at {
+			if before == nil {
+				return true
+			}
+			for _, y := range at.Instrs {
+				if y == before {
+					return false
+				}
+				if y == x {
+					return true
+				}
+			}
+			return false
+		}
+		return dominates(x.Block())
+	}
 	for _, b := range fn.Blocks {
 		for _, x := range b.Instrs {
+			if !executed(x) {
+				continue
+			}
 			switch c := x.(type) {
 			case *ssa.Call:
 				name := tb.resolvedCalleeName(&c.Call)
@@ -256,6 +307,7 @@ func (tb *TB) buildSystem(facts []Atom, at *ssa.BasicBlock, withPhi bool) *dsys 
 					ss, sc, _ := tb.lenSym(c.Call.Args[1])
 					s.le(sym, ds, dc)
 					s.le(sym, ss, sc)
+					s.copies = append(s.copies, copyRel{n: sym, dst: ds, dstOff: dc, src: ss, srcOff: sc})
 				case "io.ReadFull", "io.ReadAtLeast":
 					n := sym + ".0"
 					s.le("0", n, 0)
@@ -359,6 +411,11 @@ func (tb *TB) buildSystem(facts []Atom, at *ssa.BasicBlock, withPhi bool) *dsys 
 				} else {
 					// len <= hi
 					s.le(L, hs, hc)
+					// len = hi - lo for the linear prover
+					ls2, lo2 := linear(tb.Term(c.Low))
+					e := symLin(L).addScaled(symLin(hs), -1).addScaled(symLin(ls2), 1)
+					e.k += lo2 - hc
+					s.eqs = append(s.eqs, e)
 				}
 			case *ssa.Phi:
 				phis = append(phis, c)
@@ -454,7 +511,7 @@ func (tb *TB) edgeSystem(pred *ssa.BasicBlock, k int) *dsys {
 	} else {
 		facts = tb.FactsAt(pred)
 	}
-	s := tb.buildSystem(facts, pred, false)
+	s := tb.buildSystem(facts, pred, nil, false)
 	tb.edgeSys[ek{pred, k}] = s
 	return s
 }
@@ -519,7 +576,7 @@ func (tb *TB) phiBounds(s *dsys, ph *ssa.Phi) {
 		}
 	}
 	with := func(s *dsys, x, y string, c int64) *dsys {
-		n := &dsys{cons: append(append([]dcons{}, s.cons...), dcons{x, y, c}), neq: s.neq}
+		n := &dsys{cons: append(append([]dcons{}, s.cons...), dcons{x, y, c}), neq: s.neq, eqs: s.eqs, copies: s.copies}
 		n.tighten()
 		return n
 	}
@@ -701,6 +758,10 @@ func (tb *TB) indexOb(in ssa.Instruction, x, idx ssa.Value) *BoundOb {
 		ob.OK, ob.How = true, "0 <= index < len from guards/contracts"
 		return ob
 	}
+	if (lower || s.linImplied("0", is, io)) && (upper || s.linImplied(is, ls, lc-1-io)) {
+		ob.OK, ob.How = true, "0 <= index < len from guards/contracts (linear arithmetic)"
+		return ob
+	}
 	// index produced by masking: x & K with K < array length
 	if isArr {
 		if s.implied(is, "0", lc-1-io) && lower {
@@ -754,6 +815,10 @@ func (tb *TB) sliceOb(x *ssa.Slice) *BoundOb {
 	okHigh := x.High == nil || s.implied(his, limitS, limitC-hio)
 	if okLow && okOrder && okHigh {
 		ob.OK, ob.How = true, "0 <= low <= high <= len from guards/contracts"
+		return ob
+	}
+	if (okLow || s.linImplied("0", los, loo)) && (okOrder || s.linImplied(los, his, hio-loo)) && (okHigh || s.linImplied(his, limitS, limitC-hio)) {
+		ob.OK, ob.How = true, "0 <= low <= high <= len from guards/contracts (linear arithmetic)"
 		return ob
 	}
 	var miss []string
